@@ -135,12 +135,11 @@ func (m *vmModel) drop(k int) {
 	m.lruRemove(k)
 }
 
-// fits decides reserved+space <= capacity over the mathematical integers.
+// fits decides reserved+space <= capacity over the mathematical integers
+// (no 64-bit addition, so nothing can wrap): space <= capacity and
+// reserved <= capacity-space.
 func (m *vmModel) fits(space uint64) bool {
-	// written as "the 64-bit sum does not wrap and is within capacity" so that the
-	// second conjunct is the very comparison the store makes (cheap for the solver)
-	sum := m.reserved + space
-	return verif.And(sum >= m.reserved, sum <= m.capacity)
+	return verif.And(space <= m.capacity, m.reserved <= m.capacity-space)
 }
 
 // makeRoom evicts least-recently-used evictable blobs until space fits.
